@@ -206,6 +206,30 @@ Theorem C09_rejected_unchanged : forall lg s o e, (forall i ax v, o <> XASet i a
 Proof. exact rejected_unchanged. Qed.
 Print Assumptions C09_rejected_unchanged.
 
+(* ---------- copy_like / to_flat_array / from_flat_array ---------- *)
+(* copying an object from itself, or a SparseArray from the selection of all its own rows, changes nothing;
+   copying from an object of the same shape gives that object's content (C09_frame: nothing else changes) *)
+Theorem C09_copy_like : forall lg s i x rows c d others,
+  (nth_error s i = Some x -> (match x with OV _ _ | OA _ _ => True | _ => False end) ->
+     xstep lg s (XOp (OCopyLike i (CObj i))) = (s, RUnit)) /\
+  copy_like_view rows 0 (seq 0 (length rows)) = Ok rows /\
+  (length d = length c -> copy_like_vec c d = Ok d) /\
+  (Forall2 (fun r o => length o = length r) rows others -> copy_like_rows rows others = Ok others).
+Proof.
+  intros. split; [apply copy_like_self|]. split; [apply copy_like_view_id|]. split; [apply copy_like_vec_same|apply copy_like_rows_same].
+Qed.
+Print Assumptions C09_copy_like.
+(* what the caller's buffer held before to_flat_array(buffer) cannot be seen in the result *)
+Theorem C09_to_flat_buffer_irrelevant : forall lg s i b1 b2, length b1 = length b2 ->
+  xstep lg s (XOp (OToFlat i (Some b1))) = xstep lg s (XOp (OToFlat i (Some b2))).
+Proof. exact to_flat_buffer_irrelevant. Qed.
+Print Assumptions C09_to_flat_buffer_irrelevant.
+(* from_flat_array stores exactly the non-zeros and to_flat_array gives the flat array back *)
+Theorem C09_flat_round_trip : forall n k l, length l = (k * n)%nat ->
+  Forall2 Qeq (concat (map dense (map of_dense (chunks n k l)))) l /\ Forall wf (map of_dense (chunks n k l)).
+Proof. exact flat_round_trip. Qed.
+Print Assumptions C09_flat_round_trip.
+
 (* ---------- read-only ---------- *)
 Theorem C09_readonly_vector_rejects : forall lg s i c o,
   nth_error s i = Some (OV c true) ->
